@@ -437,7 +437,91 @@ def route_case(ctx, case):
     P14.route_case(ctx, case)
 
 
-COMPONENTS = {'schedule': schedule_case, 'route': route_case}
+def handoff_case(ctx, case):
+    """Order across threads when the writes themselves are ordered in time:
+    a listener on the networking thread is parked; the user thread queues
+    A1..An (write_packet returns each time); the listener is released and
+    queues B1..Bm; the user thread, once the listener is done, queues C.
+    All are plain queued writes, so the wire shows A.., B.., C.  Also with
+    the listener's packets written first and the user's afterwards.
+    case {version, compress, n, m, first: 'user'|'listener'}"""
+    import threading
+    import time
+    from minecraft.networking.packets import clientbound as cb, \
+        serverbound as sb
+    version = case['version']
+    ctx.ev()
+    login = [('compress', case['compress'])] \
+        if case.get('compress') is not None else []
+    srv = servers.Server({
+        'version': version, 'login': login + [('success',)],
+        'play': {'bursts': [[('raw', 0x7B, b'go')]], 'mode': 'all',
+                 'end': 'silent'}})
+    world = vnet.World(servers=[srv])
+    parked, release, done = (threading.Event(), threading.Event(),
+                             threading.Event())
+    with vnet.installed(world):
+        conn, o = servers.make_connection(world, allowed_versions={version})
+
+        def listener(p):
+            if p.id != 0x7B or parked.is_set():
+                return
+            parked.set()
+            release.wait(20)
+            for j in range(case['m']):
+                conn.write_packet(sb.play.ChatPacket(message='B%d' % j))
+            done.set()
+        from minecraft.networking.packets import Packet
+        conn.register_packet_listener(listener, Packet)
+        try:
+            conn.connect()
+            if not parked.wait(20):
+                from vlib.core import HarnessError
+                raise HarnessError('C12 handoff: listener never ran')
+            if case.get('first', 'user') == 'user':
+                for i in range(case['n']):
+                    conn.write_packet(sb.play.ChatPacket(message='A%d' % i))
+                release.set()
+                done.wait(20)
+                want = ['A%d' % i for i in range(case['n'])] + \
+                    ['B%d' % j for j in range(case['m'])] + ['C']
+            else:
+                release.set()
+                done.wait(20)
+                for i in range(case['n']):
+                    conn.write_packet(sb.play.ChatPacket(message='A%d' % i))
+                want = ['B%d' % j for j in range(case['m'])] + \
+                    ['A%d' % i for i in range(case['n'])] + ['C']
+            conn.write_packet(sb.play.ChatPacket(message='C'))
+            ok = world.wait_idle(world.links[0], conn, timeout=30.0)
+            excs = [repr(e[0]) for e in o.exceptions]
+            conn.disconnect()
+            state = world.settle(timeout=30.0)
+        except Exception as e:
+            if type(e).__name__ == 'HarnessError':
+                world.kill_all()
+                raise
+            ctx.fail('handoff', 'A-raised', case, exc=e)
+            world.kill_all()
+            return
+    if not ok or state != 'done' or srv.errors or excs:
+        ctx.fail('handoff', 'A1-malformed-stream', case,
+                 (ok, state, srv.errors[:2], excs[:2]))
+        world.kill_all()
+        return
+    chat_id = servers.packet_info(version, 'sb_chat')[0]
+    got = [servers.decode(version, 'sb_chat', pl)['message']
+           for pid, pl in srv.other_play_frames if pid == chat_id]
+    if got != want:
+        ctx.fail('handoff', 'A3-order-across-threads', case, got[:12],
+                 want[:12])
+        return
+    ctx.nt('handoff', repr(case))
+    ctx.label('handoff')
+
+
+COMPONENTS = {'schedule': schedule_case, 'route': route_case,
+              'handoff': handoff_case}
 
 
 SMALL = [
@@ -567,9 +651,24 @@ def t_farewell(ctx):
                         'chains')
 
 
+def t_handoff(ctx):
+    k = 0
+    for v in (757, 340, 47):
+        for n, m in ((3, 1), (1, 3), (40, 2), (400, 5)):
+            for first in ('user', 'listener'):
+                k += 1
+                handoff_case(ctx, {'version': v, 'n': n, 'm': m,
+                                   'first': first,
+                                   'compress': [None, 64, 0][k % 3]})
+    ctx.sample({'version': 340, 'n': 3, 'm': 1, 'first': 'user',
+                'compress': None}, 'handoff')
+    ctx.exhaustive_done('hand-over between the user thread and a listener: '
+                        '3 protocols x 4 sizes x 2 orders')
+
+
 def tasks(tier):
     q = tier == 'quick'
-    tl = [('farewell', t_farewell, {})]
+    tl = [('farewell', t_farewell, {}), ('handoff', t_handoff, {})]
     nsh = 2 if q else 8
     for i in range(len(SMALL)):
         # (the two-thread reconnect scenarios are long: more shards)
